@@ -384,8 +384,8 @@ func TestRealNATS(t *testing.T) {
 	s.Handle("m.$kind", res.Call("do", func(r res.CallRequest) {
 		switch r.PathParam("kind") {
 		case "ext":
-			r.Timeout(2 * time.Second)
-			time.Sleep(150 * time.Millisecond)
+			r.Timeout(20 * time.Second)
+			time.Sleep(1200 * time.Millisecond)
 			r.OK(map[string]string{"kind": "ext"})
 		case "ok":
 			r.OK(42)
@@ -407,6 +407,10 @@ func TestRealNATS(t *testing.T) {
 	case <-time.After(10 * time.Second):
 		t.Fatalf("VERIF-INCONCLUSIVE: service did not start")
 	}
+	// the service's subscriptions must have reached the server before the client publishes
+	if err := snc.Flush(); err != nil {
+		t.Fatalf("VERIF-INCONCLUSIVE: %v", err)
+	}
 	fc := &faultConn{Conn: cnc}
 	base := cnc.NumSubscriptions()
 	n := evid.Pick(40, 1000)
@@ -416,7 +420,11 @@ func TestRealNATS(t *testing.T) {
 		fc.failPublish, fc.failSubscribe = k == "pubfail", k == "subfail"
 		var req interface{}
 		subj := "call.svc.m." + k + ".do"
-		timeout := 100 * time.Millisecond
+		// generous: a deadline hit on a loaded machine must not look like a wrong result
+		timeout := 10 * time.Second
+		if k == "ext" {
+			timeout = time.Second // the handler replies after 1.2s, having extended the deadline to 20s
+		}
 		switch k {
 		case "badreq":
 			req = func() {}
@@ -446,7 +454,7 @@ func TestRealNATS(t *testing.T) {
 				bad = fmt.Sprintf("expected resource, got %+v (%v)", r, r.Error)
 			}
 		case "ext":
-			// the handler extends the deadline to 2s and replies after 150ms > the 100ms initial timeout
+			// the handler extends the deadline to 20s and replies after 1.2s > the 1s initial timeout
 			if !r.HasResult() || exts != 1 {
 				bad = fmt.Sprintf("expected the reply after a deadline extension (extensions seen %d), got %+v (%v)", exts, r, r.Error)
 			}
